@@ -32,6 +32,11 @@ CHECKS = {
    text="TLC checks Terminates, FewSteps, Bracket, Post, Ends, Monotone and RunAgrees for every non-decreasing table on a 2^P grid, every target and tolerances below the table's resolution (the unreachable-tolerance regime); ~350 real runs (8 segment shapes and 3 paths x scales 1e-3..1e6 x 9 targets incl. 0, L and near-ends, scipy and no-scipy) are recorded by wrapping length() and must be accepted by the trace spec (each probe = midpoint of the dyadic bracket, or the float-resolution stall followed by the return); results are compared with s/L on constant-speed curves, checked for monotonicity, the post-condition and ValueError outside [0,L].",
    note="Trusted: TLC; the recorder (harness-side wrapper of length(), no source hook). Post-condition slack max(s_tol, 1e-11 L). Without scipy only scales <= 1 (the fallback integrator needs seconds per call at 1e6).",
    ref="4 (C07), 3.10"),
+ 'C08': dict(
+   technique="TLA+ exact model of the extremes of Bezier coordinate polynomials with rational critical points (BezierBox.tla) and of the critical angles of lattice arcs (ArcLattice.tla) model-checked with TLC; exact boxes replayed through bbox()",
+   text="TLC checks WitnessInside, Attained, EndsInside and DerivZero for all ~1500 coordinate vectors over -3..3 whose critical points are rational (incl. degenerate degree, monotone, double roots, roots outside (0,1)) and the sweep membership of critical lattice angles; pairs of vectors form 2-D curves whose bbox() must equal the exact rational extremes (1e-12; also scaled 1e-3 with an offset and 2^20), generic lattice curves and off-lattice arcs are checked with 64/256 witnesses (containment and tightness up to the witness spacing), lattice circles / axis-aligned ellipses against the hull of end points and critical-angle points with 0-4 extremes crossed, and Path.bbox against the union of its segments' boxes.",
+   note="Trusted: TLC; Fraction -> float conversion. Tightness of generic curves is only bounded by the witness spacing; arcs with generic rotation and unequal radii: witnesses only.",
+   ref="4 (C08), 3.6, 3.8"),
  'C09': dict(
    technique="TLA+ lattice models (Bezier.tla split/reverse identities, ArcLattice.tla Reverse/Crop, TParam.tla) model-checked with TLC; the model's exact split control points and lattice crops replayed through reversed/split/cropped of segments and paths",
    text="TLC checks SplitReparam, SplitMeets, RevIdentity on the bi-degree unisolvent grid, ReverseOK and CropOK for every lattice arc and step pair, and the T-parameter invariants; every paired control-vector case is replayed: split(t) control points (exact), reversed() (exact), cropped(t0,t1) for all dyadic t0<t1 by points (1e-9) incl. fold-back collinear and self-crossing curves; lattice arcs reversed/split/cropped at 15-degree steps on both sides of 180 degrees (1e-6); paths: open chains, closed polygons with wrap-around crops, crop points on joints and paths traversing an equal segment twice - start/end points, joined pieces, length = length(T0,T1), closed-form values on polylines.",
